@@ -357,6 +357,7 @@ func runCascades(r *ev.Run, rng *rand.Rand, mine map[string]bool, prop string) {
 	}
 	nProg := pick(tier, 60, 300)
 	nSched := pick(tier, 8, 24)
+	stuckRuns := 0
 	for k := 0; k < nProg; k++ {
 		workers := 1 + rng.Intn(3)
 		prog := randomCascade(rng, fmt.Sprintf("rnd%d", k), 1+rng.Intn(2), 3, 2, 3, workers)
@@ -370,15 +371,26 @@ func runCascades(r *ev.Run, rng *rand.Rand, mine map[string]bool, prop string) {
 				pct.IsPoll = func(p string) bool { return cascadePollGates[p] }
 				ch = pct
 			}
-			if !add(prog, "explore", runCascadeExplore(prog, ch)) {
+			xres := runCascadeExplore(prog, ch)
+			if xres.Stuck {
+				stuckRuns++
+			}
+			if !add(prog, "explore", xres) {
 				return
 			}
+			if stuckRuns >= 6 {
+				break
+			}
+		}
+		if stuckRuns >= 6 {
+			r.Logf("six explored runs left callers or workers which never end: the remaining explored runs are not made (each costs its clean-up bounds)")
+			break
 		}
 	}
 	nFree := pick(tier, 80, 600)
 	hungFree := 0
 	for k := 0; k < nFree; k++ {
-		if hungFree >= 4 {
+		if hungFree >= 4 || stuckRuns >= 6 {
 			r.Logf("four free runs ended with waiting callers: the remaining free runs are not made (each costs its whole time bound)")
 			break
 		}
